@@ -207,6 +207,98 @@ def build_T7f(tree):
     return text, span_sha([hit])
 
 
+# ---------------------------------------------------------------------------------------------------------------
+# Bridges ("more of the code inside the model"): expressions of the hand-modelled enumerations, regenerated
+def build_T7g(tree):
+    """`compute_tile_positions_per_frame`: which range runs fastest, the per-axis multipliers of `tile_indices * [columns, rows]`
+    and the 1-based shift `pixel_indices += 1`, as expressions of the current source."""
+    fn = find_func(tree, 'compute_tile_positions_per_frame')
+    mesh = [n for n in ast.walk(fn) if isinstance(n, ast.Call) and _norm(n.func) == 'np.meshgrid']
+    if len(mesh) != 1 or len(mesh[0].args) != 2 or {k.arg: _norm(k.value) for k in mesh[0].keywords} != {'indexing': "'xy'"}:
+        raise Unsupported("compute_tile_positions_per_frame: np.meshgrid(a, b, indexing='xy') not found")
+    rng = []
+    for a in mesh[0].args:
+        if not (isinstance(a, ast.Call) and _norm(a.func) == 'range' and len(a.args) == 1):
+            raise Unsupported('compute_tile_positions_per_frame: meshgrid arguments are no longer range(n)')
+        rng.append(a.args[0])
+    mul = inc = None
+    for st in ast.walk(fn):
+        if isinstance(st, ast.Assign) and _norm(st.targets[0]) == 'pixel_indices' and isinstance(st.value, ast.BinOp) \
+                and isinstance(st.value.op, ast.Mult) and _norm(st.value.left) == 'tile_indices' and isinstance(st.value.right, ast.List) \
+                and len(st.value.right.elts) == 2:
+            mul = st.value.right.elts
+        if isinstance(st, ast.AugAssign) and _norm(st.target) == 'pixel_indices' and isinstance(st.op, ast.Add):
+            inc = st.value
+    if mul is None or inc is None:
+        raise Unsupported('compute_tile_positions_per_frame: `pixel_indices = tile_indices * [a, b]` / `pixel_indices += k` not found')
+    # with indexing='xy' and reshape(2, -1).T the first range runs fastest and is the first component of every pair
+    src = (f'p0 = fast_index * ({ast.unparse(mul[0])})\np1 = slow_index * ({ast.unparse(mul[1])})\n'
+           f'return (p0, p1, p0 + ({ast.unparse(inc)}), p1 + ({ast.unparse(inc)}))')
+    t1 = translate_block(ast.parse(src).body, 'tileOffsetOf', [('fast_index', 'int'), ('slow_index', 'int'), ('rows', 'int'), ('columns', 'int')], {},
+                         doc='`compute_tile_positions_per_frame`: for the tile with 0-based indices (fast_index, slow_index) of the two meshgrid '
+                             'ranges: (0-based pixel index pair handed to the transformer, 1-based offset pair reported)')
+    src2 = f'return ({ast.unparse(rng[0])}, {ast.unparse(rng[1])})'
+    t2 = translate_block(ast.parse(src2).body, 'tileGridRanges', [('tiles_per_column', 'int'), ('tiles_per_row', 'int')], {},
+                         doc='`compute_tile_positions_per_frame`: lengths of the (fastest, slowest) running range of the tile enumeration')
+    return t1 + '\n\n' + t2, hashlib.sha256((_norm(mesh[0]) + ''.join(_norm(x) for x in mul) + _norm(inc)).encode()).hexdigest()
+
+
+def build_T7h(tree):
+    """`iter_tiled_full_frame_data`: the range of focal plane indices and of the channel numbers."""
+    fn = find_func(tree, 'iter_tiled_full_frame_data')
+    loop = None
+    for node in ast.walk(fn):
+        if isinstance(node, ast.For) and _norm(node.target) == 'slice_index':
+            loop = node
+    if loop is None or not (isinstance(loop.iter, ast.Call) and _norm(loop.iter.func) == 'range' and len(loop.iter.args) == 2):
+        raise Unsupported('iter_tiled_full_frame_data: `for slice_index in range(a, b)` not found')
+    t1 = translate_block(ast.parse(f'return ({ast.unparse(loop.iter.args[0])}, {ast.unparse(loop.iter.args[1])})').body, 'focalPlaneRange',
+                         [('num_focal_planes', 'int')], {}, doc='`iter_tiled_full_frame_data`: (start, stop) of the focal plane indices')
+    ch = {}
+    for node in ast.walk(fn):
+        if isinstance(node, ast.Assign) and _norm(node.targets[0]) == 'channels' and isinstance(node.value, ast.Call) \
+                and _norm(node.value.func) == 'range' and len(node.value.args) == 2:
+            ch['seg' if 'SegmentSequence' in ast.unparse(node.value) else 'path'] = node.value.args
+    if sorted(ch) != ['path', 'seg']:
+        raise Unsupported('iter_tiled_full_frame_data: the two `channels = range(a, b)` assignments not found')
+    t2 = translate_block(ast.parse(f"return ({ast.unparse(ch['path'][0])}, {ast.unparse(ch['path'][1])})").body, 'opticalPathRange',
+                         [('num_optical_paths', 'int')], {}, doc='`iter_tiled_full_frame_data`: (start, stop) of the optical path numbers')
+    t3 = translate_block(ast.parse(f"return ({ast.unparse(ch['seg'][0])}, {ast.unparse(ch['seg'][1])})").body, 'segmentRange', [],
+                         {'len(dataset.SegmentSequence)': ('int', 'numSegments')},
+                         doc='`iter_tiled_full_frame_data`: (start, stop) of the segment numbers of a non-LABELMAP segmentation')
+    return '\n\n'.join([t1, t2, t3]), hashlib.sha256((_norm(loop.iter) + ''.join(_norm(a) for v in ch.values() for a in v)).encode()).hexdigest()
+
+
+def build_T7i(tree):
+    """`tile_pixel_matrix`: the two index ranges and the element yielded for the pair (r, c) of the product."""
+    fn = find_func(tree, 'tile_pixel_matrix')
+    rngs = {}
+    for node in ast.walk(fn):
+        if isinstance(node, ast.Assign) and _norm(node.targets[0]) in ('tile_row_indices', 'tile_col_indices'):
+            v = node.value
+            if not (isinstance(v, ast.Call) and _norm(v.func) == 'iter' and isinstance(v.args[0], ast.Call)
+                    and _norm(v.args[0].func) == 'range' and len(v.args[0].args) == 2):
+                raise Unsupported('tile_pixel_matrix: index iterators are no longer iter(range(a, b))')
+            rngs[_norm(node.targets[0])] = v.args[0].args
+    gen = [n for n in ast.walk(fn) if isinstance(n, ast.GeneratorExp)]
+    if sorted(rngs) != ['tile_col_indices', 'tile_row_indices'] or len(gen) != 1:
+        raise Unsupported('tile_pixel_matrix: ranges / generator not found')
+    g = gen[0].generators[0]
+    if _norm(g.iter) != 'itertools.product(tile_row_indices,tile_col_indices)' or not isinstance(g.target, ast.Tuple) or len(g.target.elts) != 2:
+        raise Unsupported('tile_pixel_matrix: product(tile_row_indices, tile_col_indices) with a pair target not found')
+    outer, inner = _norm(g.target.elts[0]), _norm(g.target.elts[1])
+    t1 = translate_block(ast.parse(f'return ({ast.unparse(gen[0].elt)})').body if not isinstance(gen[0].elt, ast.Tuple)
+                         else [ast.Return(value=gen[0].elt)], 'tileIndexElt', [(outer, 'int'), (inner, 'int')], {},
+                         doc='`tile_pixel_matrix`: the pair yielded for the element (outer, inner) of product(tile_row_indices, tile_col_indices)')
+    r, c = rngs['tile_row_indices'], rngs['tile_col_indices']
+    t2 = translate_block(ast.parse(f'return ({ast.unparse(r[0])}, {ast.unparse(r[1])}, {ast.unparse(c[0])}, {ast.unparse(c[1])})').body,
+                         'tileIndexRanges', [('tiles_per_col', 'int'), ('tiles_per_row', 'int')], {},
+                         doc='`tile_pixel_matrix`: (start, stop) of the outer (tile row) and of the inner (tile column) index range')
+    for st in ast.walk(ast.Module(body=[], type_ignores=[])):
+        pass
+    return t1 + '\n\n' + t2, hashlib.sha256((_norm(gen[0]) + ''.join(_norm(a) for a in list(r) + list(c))).encode()).hexdigest()
+
+
 TARGETS = {
     'T7a': {'file': 'spatial.py', 'build': build_T7a},
     'T7b': {'file': 'spatial.py', 'build': build_T7b},
@@ -214,4 +306,7 @@ TARGETS = {
     'T7d': {'file': 'utils.py', 'build': build_T7d},
     'T7e': {'file': 'spatial.py', 'build': build_T7e},
     'T7f': {'file': 'spatial.py', 'build': build_T7f},
+    'T7g': {'file': 'spatial.py', 'build': build_T7g},
+    'T7h': {'file': 'spatial.py', 'build': build_T7h},
+    'T7i': {'file': 'spatial.py', 'build': build_T7i},
 }
